@@ -1201,17 +1201,83 @@ def run_chan(ck):
     ck.dist["usb_chan_ops"] = ops
 
 
+class _Cur:
+    def __init__(self, line):
+        self.t = line.split()
+        self.p = 0
+
+    def word(self):
+        self.p += 1
+        return self.t[self.p - 1]
+
+    def int(self):
+        return int(self.word())
+
+    def bytes(self):
+        return bytes.fromhex(self.word()[1:])
+
+
+def _parse_dev(c):
+    d = Dev([], dd_err=c.int(), cls=c.int(), sub=c.int(), proto=c.int(), nconf=c.int())
+    for _ in range(c.int()):
+        cf = Conf(err=c.int(), value=c.int(), extra=c.bytes())
+        for _i in range(c.int()):
+            alts = []
+            for _a in range(c.int()):
+                a = Alt(c.int(), c.int(), c.int(), c.int(), c.int(), c.bytes())
+                for _e in range(c.int()):
+                    a.eps.append(Ep(c.int(), c.int(), c.bytes()))
+                alts.append(a)
+            cf.ifaces.append(Iface(alts))
+        d.confs.append(cf)
+    d.open_code, d.getcfg_code, d.getcfg_val, d.setcfg = c.int(), c.int(), c.int(), c.int()
+    for _ in range(c.int()):
+        i = c.int()
+        d.strs.append((i, c.bytes()) if c.int() == 0 else (i, c.int()))
+    return d
+
+
+def parse_case(line):
+    """the case object (with its model term and the data the predicate needs) back from a harness line"""
+    c = _Cur(line)
+    kind = c.word()
+    if kind == "enum":
+        list_code = c.int()
+        devs = [_parse_dev(c) for _ in range(c.int())]
+        return enum_case(list_code, devs, "replayed", "replay")
+    dev = _parse_dev(c)
+    which = c.int()
+    plan = [(c.int(), c.int(), c.bytes()) for _ in range(c.int())]
+    ops = []
+    for _ in range(c.int()):
+        o = c.int()
+        if o == OP_SEND:
+            ops.append((o, c.bytes(), c.int()))
+        elif o == OP_RECV:
+            ops.append((o, c.int(), c.int()))
+        elif o == OP_SETHALT:
+            ops.append((o, c.int()))
+        else:
+            ops.append((o,))
+    return chan_case(dev, which, plan, ops, "replayed", "replay")
+
+
 def replay(ck, r):
-    """--replay of a stored usb case: both sides and the predicate verdict"""
-    line = r["case"]
+    """--replay of a stored usb case: the real code, the model and the predicate verdict on exactly that case"""
+    c = parse_case(r["case"])
+    assert c.line == r["case"], "the stored case does not re-render to itself"
     binary = build(ck)
-    impl = ck.run_impl(binary, [line])
-    print("case :", line[:3000])
-    print("impl :", _clip(impl[0], 300))
-    print("model (stored):", _clip(r.get("model"), 300))
-    print("predicate failure (stored):", r.get("predicate_failure"))
-    print("agree with the stored model output:", impl[0] == r.get("model"))
-    sys.exit(0 if impl[0] == r.get("model") and not r.get("predicate_failure") else 1)
+    if binary is None:
+        ck.finish()
+    impl = ck.run_impl(binary, [c.line])
+    model = ck.run_model_terms(["UsbEnum"] if c.kind == "enum" else ["UsbChannel"], [c.term])
+    why = (predicate_enum if c.kind == "enum" else predicate_chan)(c, impl[0])
+    print("case     :", c.line[:3000])
+    print("impl     :", _clip(impl[0], 300))
+    print("model    :", _clip(model[0], 300))
+    print("predicate:", why or "holds")
+    print("agree    :", impl[0] == model[0])
+    sys.exit(0 if impl[0] == model[0] and why is None else 1)
 
 
 def main():
